@@ -364,6 +364,10 @@ def run(chk):
     r, behs = emit_behaviours('Gen_Logging', 'Gen_Logging_quick.cfg' if quick else 'Gen_Logging_thorough.cfg',
                               maximal_only=False, timeout=900)
     chk.add_tlc(r)
+    if quick:
+        # the quick tier replays every third behaviour (offset by the seed); thorough replays all of a deeper run
+        behs = behs[chk.seed % 3::3]
+        chk.notes['routing_behaviours_sampled'] = '1 of 3'
     res = pool_map(_replay_routing, behs)
     for beh, bad in zip(behs, res):
         chk.impl_traces += 1
